@@ -1,5 +1,6 @@
 //! S-expression exchange format for trees (the Lean parser prints it; replays store it).
 use super::tree::*;
+use super::types::*;
 use crate::model::{hex, unhex};
 
 #[derive(Clone, Debug, PartialEq)]
@@ -101,7 +102,39 @@ fn to_func(s: &Sx) -> Option<Func> {
                 _ => return None,
             },
             body: to_blk(body)?,
+            sig: None,
         }),
+        // (funct (generics) ((name type|-)...) variadic(n | v | <tvar>) ret(- | ...) body)
+        ("funct", [generics, params, variadic, ret, body]) => {
+            let mut sig = Sig { generics: to_generics(generics)?, ..Default::default() };
+            let mut plain = Vec::new();
+            for p in list(params)? {
+                match list(p)? {
+                    [name, t] => {
+                        plain.push(atom(name)?.to_owned());
+                        sig.param_types.push(if atom(t) == Some("-") { None } else { Some(to_ty(t)?) });
+                    }
+                    _ => return None,
+                }
+            }
+            let is_variadic = match atom(variadic) {
+                Some("n") => false,
+                Some("v") => true,
+                _ => {
+                    sig.variadic_type = Some(to_var(variadic)?);
+                    true
+                }
+            };
+            if atom(ret) != Some("-") {
+                sig.ret = Some(to_ret(ret)?);
+            }
+            Some(Func {
+                params: plain,
+                variadic: is_variadic,
+                body: to_blk(body)?,
+                sig: if sig.is_empty() { None } else { Some(Box::new(sig)) },
+            })
+        }
         _ => None,
     }
 }
@@ -139,7 +172,7 @@ pub fn to_ex(s: &Sx) -> Option<Ex> {
         ("index", [p, k]) => Ex::Index(Box::new(to_ex(p)?), Box::new(to_ex(k)?)),
         ("call", [p, a]) => Ex::Call(Box::new(to_ex(p)?), None, to_args(a)?),
         ("mcall", [p, m, a]) => Ex::Call(Box::new(to_ex(p)?), Some(atom(m)?.to_owned()), to_args(a)?),
-        ("func", _) => Ex::Func(Box::new(to_func(s)?)),
+        ("func", _) | ("funct", _) => Ex::Func(Box::new(to_func(s)?)),
         ("table", entries) => Ex::Table(to_entries(entries)?),
         ("ifexp", [c, r, e, branches @ ..]) => Ex::IfExp(
             Box::new(to_ex(c)?),
@@ -153,7 +186,7 @@ pub fn to_ex(s: &Sx) -> Option<Ex> {
                 .collect::<Option<Vec<_>>>()?,
             Box::new(to_ex(e)?),
         ),
-        ("cast", [x, t]) => Ex::Cast(Box::new(to_ex(x)?), atom(t)?.to_owned()),
+        ("cast", [x, t]) => Ex::Cast(Box::new(to_ex(x)?), to_ty(t)?),
         _ => return None,
     })
 }
@@ -163,6 +196,22 @@ fn to_st(s: &Sx) -> Option<St> {
     Some(match (h, rest) {
         ("assign", [vars, vals]) => St::Assign(exprs(list(vars)?)?, exprs(list(vals)?)?),
         ("local", [ns, vals]) => St::Local(names(ns)?, exprs(list(vals)?)?),
+        ("localt", [ns, vals]) => St::LocalT(
+            list(ns)?
+                .iter()
+                .map(|p| match list(p)? {
+                    [name, t] => Some((atom(name)?.to_owned(), if atom(t) == Some("-") { None } else { Some(to_ty(t)?) })),
+                    _ => None,
+                })
+                .collect::<Option<_>>()?,
+            exprs(list(vals)?)?,
+        ),
+        ("typedecl", [exp, name, generics, t]) => St::TypeDecl(
+            atom(exp)? == "exp",
+            atom(name)?.to_owned(),
+            to_generics(generics)?,
+            to_ty(t)?,
+        ),
         ("do", [b]) => St::Do(to_blk(b)?),
         ("callst", [c]) => St::CallSt(to_ex(c)?),
         ("compound", [op, var, val]) => St::Compound(index_of(&COMPOUND, atom(op)?)?, to_ex(var)?, to_ex(val)?),
@@ -246,7 +295,27 @@ fn args_str(a: &Args) -> String {
     }
 }
 fn func_str(f: &Func) -> String {
-    format!("(func ({}) {} {})", f.params.join(" "), if f.variadic { "v" } else { "n" }, blk_str(&f.body))
+    match &f.sig {
+        None => format!("(func ({}) {} {})", f.params.join(" "), if f.variadic { "v" } else { "n" }, blk_str(&f.body)),
+        Some(sig) => format!(
+            "(funct {} ({}) {} {} {})",
+            generics_str(&sig.generics),
+            f.params
+                .iter()
+                .enumerate()
+                .map(|(i, p)| format!("({} {})", p, sig.param_types.get(i).and_then(|t| t.as_ref()).map_or("-".to_owned(), ty_str)))
+                .collect::<Vec<_>>()
+                .join(" "),
+            match (&sig.variadic_type, f.variadic) {
+                (Some(TyVar::Variadic(t)), _) => format!("(tvariadic {})", ty_str(t)),
+                (Some(TyVar::Generic(n)), _) => format!("(tgeneric {})", n),
+                (None, true) => "v".to_owned(),
+                (None, false) => "n".to_owned(),
+            },
+            sig.ret.as_ref().map_or("-".to_owned(), ret_str),
+            blk_str(&f.body)
+        ),
+    }
 }
 pub fn ex_str(e: &Ex) -> String {
     match e {
@@ -278,7 +347,7 @@ pub fn ex_str(e: &Ex) -> String {
             ex_str(e),
             join(br.iter().map(|(a, b)| format!("(elif {} {})", ex_str(a), ex_str(b))))
         ),
-        Ex::Cast(x, t) => format!("(cast {} {})", ex_str(x), t),
+        Ex::Cast(x, t) => format!("(cast {} {})", ex_str(x), ty_str(t)),
     }
 }
 fn st_str(s: &St) -> String {
@@ -286,6 +355,14 @@ fn st_str(s: &St) -> String {
     match s {
         St::Assign(a, v) => format!("(assign {} {})", list(a), list(v)),
         St::Local(n, v) => format!("(local ({}) {})", n.join(" "), list(v)),
+        St::LocalT(n, v) => format!(
+            "(localt ({}) {})",
+            n.iter().map(|(name, t)| format!("({} {})", name, t.as_ref().map_or("-".to_owned(), ty_str))).collect::<Vec<_>>().join(" "),
+            list(v)
+        ),
+        St::TypeDecl(e, name, g, t) => {
+            format!("(typedecl {} {} {} {})", if *e { "exp" } else { "loc" }, name, generics_str(g), ty_str(t))
+        }
         St::Do(b) => format!("(do {})", blk_str(b)),
         St::CallSt(c) => format!("(callst {})", ex_str(c)),
         St::Compound(op, a, b) => format!("(compound {} {} {})", COMPOUND[*op], ex_str(a), ex_str(b)),
